@@ -139,10 +139,7 @@ func setKhmerProperties(info *GlyphInfo) {
 
 func setupSyllablesKhmer(_ *otShapePlan, _ *Font, buffer *Buffer) bool {
 	findSyllablesKhmer(buffer)
-	iter, count := buffer.syllableIterator()
-	for start, end := iter.next(); start < count; start, end = iter.next() {
-		buffer.unsafeToBreak(start, end)
-	}
+	syllabicUnsafeToBreak(buffer)
 	return false
 }
 
